@@ -24,7 +24,7 @@ OTHER = {
     "Tag": ["padding", "wiki_markup", "self_closing", "invalid", "implicit", "wiki_style_separator", "closing_wiki_markup"],
     "ExternalLink": ["brackets", "suppress_space"] if False else ["brackets"], "Comment": ["contents"], "Text": ["value"],
 }
-TEXTS = ["x", "a b", "", "3", " 2 ", "7", "1", "{{t|p}}", "[[l|m]] tail", "<b>z</b>", "''i''", " spaced ", "a=b|c", "&amp;", "multi\nline", "日本"]
+TEXTS = ["http://example.com/[[page]]", "https://a.org/x [[y]]", "x", "a b", "", "3", " 2 ", "7", "1", "{{t|p}}", "[[l|m]] tail", "<b>z</b>", "''i''", " spaced ", "a=b|c", "&amp;", "multi\nline", "日本"]
 INVALID = {
     "Heading.level": [0, 7, -1, "9", "x", 100], "HTMLEntity.value": [" 12", "1_0", "+5", "٣", " ff", "12 ", "1\n", "notanentity", "x110000", "1114112", "-5", "zz", "12FFFF", "ffffffff", "FFFFFFF", "x12FFFF", "0x41", "", "1e3", "99999999"],
     "HTMLEntity.named": [True], "HTMLEntity.hexadecimal": [True], "HTMLEntity.hex_char": ["y", "", "xx", 5],
@@ -32,7 +32,7 @@ INVALID = {
     "Attribute.pad_before_eq": ["x"], "Attribute.pad_after_eq": ["q "], "Tag.padding": ["x", " y "],
 }
 VALID = {
-    "Heading.level": [1, 6, "3", 2.0, True], "HTMLEntity.value": ["amp", "nbsp", "65", "x41", "10FFFF", "0"],
+    "Heading.level": [1, 6, "3", 2.0, True], "HTMLEntity.value": ["amp", "nbsp", "65", "x41", "10FFFF", "0", "1114111", "999999", "110000"],
     "HTMLEntity.named": [False, True], "HTMLEntity.hexadecimal": [False, True], "HTMLEntity.hex_char": ["x", "X"],
     "Parameter.showkey": [True, False], "Attribute.quotes": ['"', "'", None], "Attribute.pad_first": [" ", "  ", "\n", "", None],
     "Attribute.pad_before_eq": ["", " "], "Attribute.pad_after_eq": ["", " "], "Tag.padding": ["", " ", "\n", None],
@@ -60,8 +60,10 @@ def values_for(rng, cls, attr, code):
     if attr in PARSED.get(cls, []):
         t = rng.choice(TEXTS)
         kind = rng.random()
-        if kind < 0.6:
+        if kind < 0.5:
             return t, t
+        if kind < 0.6:
+            return t.encode("utf8"), t          # bytes are decoded as UTF-8
         if kind < 0.75:
             n = rng.randint(0, 99)
             return n, str(n)
@@ -120,6 +122,15 @@ def one_sequence(seed):
             if not isinstance(e, (TypeError, AttributeError)):
                 return log, "assignment raised %r: %s" % (e, log[-1]), rejected
             continue
+        if isinstance(val, bytes):
+            # the stored form does not depend on the type the text came in: same node kinds as for the str
+            import copy as _copy
+            twin = _copy.deepcopy(obj)
+            setattr(twin, attr, val.decode("utf8"))
+            ka = [type(n).__name__ for n in getattr(obj, attr).filter()] if getattr(obj, attr) is not None else None
+            kb = [type(n).__name__ for n in getattr(twin, attr).filter()] if getattr(twin, attr) is not None else None
+            if ka != kb:
+                return log, "%s is stored as %r, the same text given as str as %r" % (log[-1], ka, kb), rejected
         if expect is not None:
             got = getattr(obj, attr)
             if got is None or str(got) != expect:
@@ -136,7 +147,7 @@ def one_sequence(seed):
             return log, "the parameter does not render the name assigned by %s: %r" % (log[-1], str(obj)), rejected
         if cls == "HTMLEntity" and attr in ("value", "named", "hexadecimal", "hex_char") and False:
             pass
-        if cls == "HTMLEntity" and attr == "value":
+        if cls == "HTMLEntity" and (attr == "value" or (attr == "hexadecimal" and val)):
             # an accepted value is an entity name or a code point: the node must render something that IS that entity
             import mwparserfromhell as _M
             back = _M.parse(str(obj)).nodes
@@ -184,6 +195,14 @@ def run(tier, seed):
             nontrivial.add(tuple(log))
         if fail:
             c.fail(fail, {"seed": s, "assignments": log})
+    import entityprobe
+    ep = vlib.robust_map(entityprobe.work, [0], chunk=1, timeout=300)[0]
+    if isinstance(ep, tuple) and ep and ep[0] in ("CRASH", "TIMEOUT", "PYEXC"):
+        c.fail("entity probe %s: %s" % (ep[0], str(ep[1])[:300]), {"probe": "entity", "outcome": ep[0]})
+    else:
+        c.cov["evaluations"] += ep[1]
+        for msg in ep[0][:20]:
+            c.fail(msg, {"probe": "entity", "what": msg})
     import tagadd
     ta = vlib.robust_map(tagadd.work, [0], chunk=1, timeout=300)[0]
     if isinstance(ta, tuple) and ta and ta[0] in ("CRASH", "TIMEOUT", "PYEXC"):
@@ -213,6 +232,11 @@ def run(tier, seed):
 
 
 def replay(data):
+    if data["data"].get("probe") == "entity":
+        import entityprobe
+        f, _n = entityprobe.probe()
+        print("\n".join(f[:20]))
+        return 1 if f else 0
     if data["data"].get("probe") == "tagadd":
         import tagadd
         f, _n = tagadd.probe()
